@@ -157,7 +157,10 @@ class C05(Check):
                 break
         out.nontrivial = nontrivial and len(labels) >= 2
         out.case_hash = jhash(plan)
-        out.digest = jhash([results, out.violation])
+        # event log digest: full trees where the order must not matter; only accept/reject where the tree may legitimately depend on the
+        # iteration order (ordered_sets=False), which in-process is a function of (salt, PYTHONHASHSEED)
+        norm = [res if c['ordered_sets'] else [[(r[2][0] if r[0] == 'unstable' else r[0]) for r in order] for order in res] for c, res in zip(cases, results)]
+        out.digest = jhash([norm, out.violation['kind'] if out.violation else None])
         return out
 
     def _judge(self, c, lc, res, labels, plan, out):
